@@ -1,7 +1,7 @@
-import PromProofs.Pfm
+import PromProofs.LabelQ
 /-
   C16 — Series selection and label queries follow matcher semantics.
-  Property theorems only; helper lemmas live in PromProofs/Postings.lean and PromProofs/Pfm.lean.
+  Property theorems only; helper lemmas live in PromProofs/Postings.lean, Pfm.lean and LabelQ.lean.
 
   Vocabulary: `Sorted p` = strictly increasing refs; `WFix ix` = well-formed index (refs positive and
   strictly increasing, label names/values non-empty, `lvs` enumerates the values in use);
@@ -82,5 +82,95 @@ theorem pfm_empty_name_witness :
     postingsForMatchers (mkHead [[("a", "x")], [("b", "y")]]) [m] = .ok [1, 2] ∧
       sat [m] ⟨1, [("a", "x")]⟩ = false := by
   constructor <;> rfl
+
+/-! ## Select -/
+
+/-- `Select`: for both values of `sortSeries` the returned series are exactly the stored series that
+    satisfy every matcher; unsorted they come in index order, sorted every adjacent pair is in
+    `labels.Compare ≤ 0` order. -/
+theorem select_exact {ix : Index} {ms : List Matcher} (wf : WFix ix) (hne : ms ≠ []) (hms : ∀ m ∈ ms, WFm m)
+    (sorted : Bool) :
+    ∃ ss, select ix sorted ms = .ok ss ∧ (sorted = false → ss = ix.series.filter (sat ms)) ∧
+      ∀ s, s ∈ ss ↔ s ∈ ix.series ∧ sat ms s = true := by
+  obtain ⟨ss, h1, _, h3, h4⟩ := select_spec wf hne hms sorted
+  exact ⟨ss, h1, h3, h4⟩
+
+theorem select_sorted {ix : Index} {ms : List Matcher} (wf : WFix ix) (hne : ms ≠ []) (hms : ∀ m ∈ ms, WFm m) :
+    ∃ ss, select ix true ms = .ok ss ∧ ChainLe ss := by
+  obtain ⟨ss, h1, h2, _⟩ := select_spec wf hne hms true
+  exact ⟨ss, h1, h2 rfl⟩
+
+/-! ## Label names / label values -/
+
+/-- `LabelNames` without limit: strictly increasing (sorted, duplicate-free), sound and complete with
+    respect to the series satisfying the matchers (no matchers = all series). -/
+theorem label_names_exact {ix : Index} {ms : List Matcher} (wf : WFix ix) (hms : ∀ m ∈ ms, WFm m) :
+    ∃ ns, labelNames ix 0 ms = .ok ns ∧ ns.Pairwise (· < ·) ∧
+      ∀ n, n ∈ ns ↔ ∃ s ∈ ix.series, sat ms s = true ∧ n ∈ s.labels.map (·.1) :=
+  labelNames_spec wf hms
+
+/-- `LabelValues` without limit: strictly increasing (sorted, duplicate-free), sound and complete. -/
+theorem label_values_exact {ix : Index} {ms : List Matcher} (wf : WFix ix) (hms : ∀ m ∈ ms, WFm m)
+    {name : String} (hn : name ≠ "") (hnd : (ix.lvs name).Nodup) :
+    ∃ vs, labelValues ix name 0 ms = .ok vs ∧ vs.Pairwise (· < ·) ∧
+      ∀ v, v ∈ vs ↔ ∃ s ∈ ix.series, sat ms s = true ∧ s.labels.lookup name = some v := by
+  obtain ⟨vs, h1, _, h3⟩ := labelValues_spec wf hms hn
+  obtain ⟨vs', h1', h2'⟩ := labelValues_strict wf hms name hnd
+  rw [h1] at h1'
+  cases h1'
+  exact ⟨vs, h1, h2', h3⟩
+
+/-- Limits: with limit `n > 0` both queries return `min n (size of the unlimited result)` entries, all
+    taken from the unlimited result (label names: its first `n`; label values: a sorted subset — in the
+    head the truncation happens in insertion order *before* sorting, so it need not be a prefix). -/
+theorem limit_prefix {ix : Index} {ms : List Matcher} (wf : WFix ix) (hms : ∀ m ∈ ms, WFm m)
+    (name : String) (n : Nat) (hn : 0 < n) :
+    (∃ lim unl, labelNames ix n ms = .ok lim ∧ labelNames ix 0 ms = .ok unl ∧
+        lim = unl.take n ∧ lim.length = min n unl.length) ∧
+    (∃ lim unl, labelValues ix name n ms = .ok lim ∧ labelValues ix name 0 ms = .ok unl ∧
+        lim.length = min n unl.length ∧ ∀ v ∈ lim, v ∈ unl) := by
+  constructor
+  · obtain ⟨lim, unl, h1, h2, h3⟩ := labelNames_limit wf hms n hn
+    exact ⟨lim, unl, h1, h2, h3, by rw [h3, List.length_take]⟩
+  · obtain ⟨X, h0, h1⟩ := labelValues_limit wf hms name n
+    refine ⟨_, _, h1, h0, ?_, ?_⟩
+    · have := (truncate_spec n X).1
+      have hn' : n ≠ 0 := by omega
+      rw [length_sortS, length_sortS, this, if_neg hn']
+    · intro v hv
+      rw [mem_sortS] at hv ⊢
+      exact (truncate_spec n X).2.subset hv
+
+/-- the limited label-values answer need not be a prefix of the unlimited one (head, insertion order) -/
+theorem limit_not_prefix_witness :
+    let ix := mkHead [[("a", "y")], [("a", "x")]]
+    labelValues ix "a" 1 [] = .ok ["y"] ∧ labelValues ix "a" 0 [] = .ok ["x", "y"] := by
+  constructor <;> rfl
+
+/-! ## The hypotheses are satisfiable: every index the suite builds is well-formed -/
+
+theorem wfix_mkHead {lsets : List (List (String × String))}
+    (h : ∀ ls ∈ lsets, ∀ kv ∈ ls, kv.1 ≠ "" ∧ kv.2 ≠ "") : WFix (mkHead lsets) ∧ ∀ n, ((mkHead lsets).lvs n).Nodup :=
+  ⟨wfix_of_renumber lsets h _ (fun _ _ => mem_dedup), fun _ => nodup_dedup _⟩
+
+theorem wfix_mkBlock {lsets : List (List (String × String))}
+    (h : ∀ ls ∈ lsets, ∀ kv ∈ ls, kv.1 ≠ "" ∧ kv.2 ≠ "") : WFix (mkBlock lsets) ∧ ∀ n, ((mkBlock lsets).lvs n).Nodup := by
+  refine ⟨wfix_of_renumber _ ?_ _ (fun _ _ => mem_sortS.trans mem_dedup), fun _ => ?_⟩
+  · intro ls hls
+    obtain ⟨s, hs, rfl⟩ := List.mem_map.mp hls
+    obtain ⟨ls', hl', rfl⟩ := List.mem_map.mp (mem_sortByLabels.mp hs)
+    exact h ls' hl'
+  · exact List.nodup_iff_pairwise_ne.mpr ((sortS_strict (nodup_dedup _)).imp (fun h e => by
+      rw [e] at h; exact String.lt_irrefl _ h))
+
+example : WFm ⟨"a", .re, "x|y", fun s => s == "x" || s == "y", ["x", "y"]⟩ :=
+  ⟨by decide, by simp, by simp, by simp, by intro _ _ s; simp only [List.contains_cons, List.contains_nil, Bool.or_false]⟩
+
+/-- a concrete instance of `pfm_exact`: `{a=~"x|y", b=""}` over three series -/
+example :
+    let ms : List Matcher := [⟨"a", .re, "x|y", fun s => s == "x" || s == "y", ["x", "y"]⟩,
+                              ⟨"b", .eq, "", fun s => s == "", []⟩]
+    postingsForMatchers (mkHead [[("a", "x")], [("a", "y"), ("b", "z")], [("a", "z")]]) ms = .ok [1] := by
+  rfl
 
 end Prom.C16
